@@ -48,6 +48,8 @@ type Case struct {
 	N       int    `json:"n"`       // Verify workers
 	Repair  bool   `json:"repair"`  // Verify with repair
 	Keep    bool   `json:"keep"`    // Prune with keep set {id} instead of the empty set
+	// where the chunk of the first / second StoreChunk into store 1 comes from (prov_test.go)
+	Prov [2]ProvSpec `json:"prov"`
 }
 
 func genLen(t *rapid.T, size string) int {
@@ -97,6 +99,8 @@ func genCase(t *rapid.T) Case {
 	c.N = rapid.IntRange(1, 4).Draw(t, "n")
 	c.Repair = rapid.Bool().Draw(t, "repair")
 	c.Keep = rapid.IntRange(0, 3).Draw(t, "keep") == 0
+	c.Prov[0] = genProv(t, "prov0")
+	c.Prov[1] = genProv(t, "prov1")
 	return c
 }
 
@@ -554,6 +558,84 @@ func newModel(label, sid string, id desync.ChunkID, data []byte) *model {
 	}
 }
 
+// judgeStore is the layout oracle for one StoreChunk into the desync-written store: exactly one
+// new file, at <id[0:4]>/<id> + (.cacnk | nothing); raw bytes for the uncompressed format; for
+// the compressed format exactly one standard zstd frame that the other implementation decodes
+// to the chunk. It is the same for every provenance of the chunk (via is for messages only).
+// ok: the file exists under the right name; fi: the walked frame of a well-formed .cacnk file;
+// cross: the other implementation decoded an entropy-coded frame.
+func judgeStore(o *hx.Outcome, m1 *model, before, after snap, unc bool, data []byte, fill, via string) (ok bool, dfi *frameInfo, cross bool) {
+	me := modeName(unc) + " store, chunk " + via
+	sid := m1.sid
+	var fresh []string
+	for _, name := range after.names() {
+		old, was := before.files[name]
+		if !was {
+			fresh = append(fresh, name)
+		} else if !bytes.Equal(old, after.files[name]) {
+			o.Fail("C20:coexist:file-modified", "StoreChunk (%s) changed the existing file %s", me, name)
+		}
+	}
+	for name := range before.files {
+		if _, still := after.files[name]; !still {
+			o.Fail("C20:coexist:store-removed-other-format", "StoreChunk (%s) removed the existing file %s", me, name)
+		}
+	}
+	want := m1.path[unc]
+	if len(fresh) != 1 {
+		o.Fail("C20:layout:file-count", "StoreChunk (%s) created %d files %v, expected exactly one: %s", me, len(fresh), fresh, want)
+	}
+	if len(after.odd) > 0 {
+		o.Fail("C20:layout:extra-file", "StoreChunk (%s) left non-regular entries %v", me, after.odd)
+	}
+	file, ok := after.files[want]
+	if !ok {
+		o.Fail("C20:layout:path", "StoreChunk (%s) did not create %s; new files: %v", me, want, fresh)
+		if len(fresh) != 1 {
+			return false, nil, false
+		}
+		file = after.files[fresh[0]] // still look at the content
+	} else if len(after.dirs) != 1 || after.dirs[0] != sid[:4] {
+		o.Fail("C20:layout:dir", "store directories after StoreChunk (%s): %v, expected only %s", me, after.dirs, sid[:4])
+	}
+	if ok {
+		m1.state[unc], m1.bytes[unc] = valid, file
+	}
+	if unc {
+		if !bytes.Equal(file, data) {
+			o.Fail("C20:layout:raw-bytes", "uncompressed chunk file (%s) holds %s, the chunk is %s", me, short(file), short(data))
+		}
+		return ok, nil, false
+	}
+	fi, werr := walkFrame(file)
+	if werr != nil {
+		fe := werr.(*frameErr)
+		sig := "C20:layout:bad-frame:" + fe.Reason
+		if fe.notSingleFrame() {
+			sig = "C20:layout:not-single-frame"
+		}
+		o.Fail(sig, ".cacnk file written by desync (%s; %s) for a %d-byte %s chunk is not exactly one standard zstd frame: %v; file: %s", desyncImpl, me, len(data), fill, werr, short(file))
+	} else {
+		dfi = &fi
+		if fi.HasFCS && fi.FCS != uint64(len(data)) {
+			o.Fail("C20:layout:frame-content-size", "frame header declares %d bytes of content, the chunk has %d (%s)", fi.FCS, len(data), me)
+		}
+		if fi.Compressed == 0 && fi.KnownRegen != uint64(len(data)) {
+			o.Fail("C20:layout:frame-content-size", "raw/rle blocks regenerate %d bytes, the chunk has %d (%s)", fi.KnownRegen, len(data), me)
+		}
+	}
+	dec, derr := other.Decompress(file)
+	switch {
+	case derr != nil:
+		o.Fail("C20:decode:other-impl-fails", "%s cannot decode the .cacnk file written by desync (%s; %s) for a %d-byte %s chunk: %v; file: %s", other.Name(), desyncImpl, me, len(data), fill, derr, short(file))
+	case !bytes.Equal(dec, data):
+		o.Fail("C20:decode:other-impl-differs", "%s decodes the .cacnk file written by desync (%s; %s) to %d bytes that differ from the %d-byte chunk", other.Name(), desyncImpl, me, len(dec), len(data))
+	case werr == nil && fi.Compressed > 0:
+		cross = true
+	}
+	return ok, dfi, cross
+}
+
 // ---------------------------------------------------------------- one case
 
 func run(c Case) (o hx.Outcome) {
@@ -587,6 +669,7 @@ func run(c Case) (o hx.Outcome) {
 	m1.origin[false] = "desync-written"
 	firstUnc := c.Mode == "uncompressed"
 	var desyncFrame *frameInfo
+	var provs [2]ProvSpec
 	for step, unc := range []bool{firstUnc, !firstUnc} {
 		me := modeName(unc)
 		st, err := desync.NewLocalStore(base1, desync.StoreOptions{Uncompressed: unc})
@@ -594,78 +677,19 @@ func run(c Case) (o hx.Outcome) {
 			o.Fail("C20:store:open", "NewLocalStore(%s): %v", me, err)
 			continue
 		}
+		p := c.Prov[step].norm()
+		provs[step] = p
+		o.Class(p.classes(unc)...)
 		before := snapshot(base1)
-		if err := st.StoreChunk(desync.NewChunk(append([]byte(nil), data...))); err != nil {
-			o.Fail("C20:store:error", "StoreChunk (%s, %d bytes): %v", me, len(data), err)
+		if !storeVia(&o, p, st, unc, filepath.Join(root, fmt.Sprintf("src%d", step)), id, sid, data) {
 			continue
 		}
 		after := snapshot(base1)
-		var fresh []string
-		for _, name := range after.names() {
-			old, was := before.files[name]
-			if !was {
-				fresh = append(fresh, name)
-			} else if !bytes.Equal(old, after.files[name]) {
-				o.Fail("C20:coexist:file-modified", "StoreChunk (%s) changed the existing file %s", me, name)
-			}
+		ok, fi, cross := judgeStore(&o, m1, before, after, unc, data, c.Fill, p.key())
+		if fi != nil {
+			desyncFrame = fi
 		}
-		for name := range before.files {
-			if _, still := after.files[name]; !still {
-				o.Fail("C20:coexist:store-removed-other-format", "StoreChunk (%s) removed the existing file %s", me, name)
-			}
-		}
-		want := m1.path[unc]
-		if len(fresh) != 1 {
-			o.Fail("C20:layout:file-count", "StoreChunk (%s) created %d files %v, expected exactly one: %s", me, len(fresh), fresh, want)
-		}
-		if len(after.odd) > 0 {
-			o.Fail("C20:layout:extra-file", "StoreChunk (%s) left non-regular entries %v", me, after.odd)
-		}
-		file, ok := after.files[want]
-		if !ok {
-			o.Fail("C20:layout:path", "StoreChunk (%s) did not create %s; new files: %v", me, want, fresh)
-			if len(fresh) != 1 {
-				continue
-			}
-			file = after.files[fresh[0]] // still look at the content
-		} else if len(after.dirs) != 1 || after.dirs[0] != sid[:4] {
-			o.Fail("C20:layout:dir", "store directories after StoreChunk (%s): %v, expected only %s", me, after.dirs, sid[:4])
-		}
-		if ok {
-			m1.state[unc], m1.bytes[unc] = valid, file
-		}
-		if unc {
-			if !bytes.Equal(file, data) {
-				o.Fail("C20:layout:raw-bytes", "uncompressed chunk file holds %s, the chunk is %s", short(file), short(data))
-			}
-		} else {
-			fi, werr := walkFrame(file)
-			if werr != nil {
-				fe := werr.(*frameErr)
-				sig := "C20:layout:bad-frame:" + fe.Reason
-				if fe.notSingleFrame() {
-					sig = "C20:layout:not-single-frame"
-				}
-				o.Fail(sig, ".cacnk file written by desync (%s) for a %d-byte %s chunk is not exactly one standard zstd frame: %v; file: %s", desyncImpl, len(data), c.Fill, werr, short(file))
-			} else {
-				desyncFrame = &fi
-				if fi.HasFCS && fi.FCS != uint64(len(data)) {
-					o.Fail("C20:layout:frame-content-size", "frame header declares %d bytes of content, the chunk has %d", fi.FCS, len(data))
-				}
-				if fi.Compressed == 0 && fi.KnownRegen != uint64(len(data)) {
-					o.Fail("C20:layout:frame-content-size", "raw/rle blocks regenerate %d bytes, the chunk has %d", fi.KnownRegen, len(data))
-				}
-			}
-			dec, derr := other.Decompress(file)
-			switch {
-			case derr != nil:
-				o.Fail("C20:decode:other-impl-fails", "%s cannot decode the .cacnk file written by desync (%s) for a %d-byte %s chunk: %v; file: %s", other.Name(), desyncImpl, len(data), c.Fill, derr, short(file))
-			case !bytes.Equal(dec, data):
-				o.Fail("C20:decode:other-impl-differs", "%s decodes the .cacnk file written by desync (%s) to %d bytes that differ from the %d-byte chunk", other.Name(), desyncImpl, len(dec), len(data))
-			case werr == nil && fi.Compressed > 0:
-				crossEntropy = true
-			}
-		}
+		crossEntropy = crossEntropy || cross
 		if step == 0 && ok {
 			// only this format exists: the other client must not see it
 			ost, err := desync.NewLocalStore(base1, desync.StoreOptions{Uncompressed: !unc})
@@ -818,8 +842,9 @@ func run(c Case) (o hx.Outcome) {
 	o.Nontrivial = crossEntropy || m2.everBoth
 	o.Desc = map[string]any{"build": buildName, "desync": desyncImpl, "other": other.Name(), "len": len(data), "fill": c.Fill,
 		"first_writer": c.Mode, "s2_cacnk": c.Cacnk, "s2_raw": raw0, "corrupt": c.Corrupt, "first": c.First, "n": c.N,
-		"repair": c.Repair, "keep": c.Keep, "desync_frame": dfd, "other_frame": ofd}
-	o.Key = fmt.Sprintf("%s/%d/%s/%s/%s/%s/%s/%s/%v/%v", buildName, len(data), c.Fill, c.Mode, c.Cacnk, raw0, c.Corrupt, c.First, c.Repair, c.Keep)
+		"repair": c.Repair, "keep": c.Keep, "desync_frame": dfd, "other_frame": ofd,
+		"prov_first": provs[0].key(), "prov_second": provs[1].key()}
+	o.Key = fmt.Sprintf("%s/%d/%s/%s/%s/%s/%s/%s/%v/%v/%s/%s", buildName, len(data), c.Fill, c.Mode, c.Cacnk, raw0, c.Corrupt, c.First, c.Repair, c.Keep, provs[0].key(), provs[1].key())
 	return o
 }
 
@@ -836,6 +861,7 @@ func required() []string {
 		"other-frame:has-compressed-block", "other-frame:no-content-size", "other-frame:content-size",
 		"cross-decode:entropy-coded",
 	}
+	r = append(r, provRequired()...)
 	r = append(r, "build:desync="+desyncImpl+",other="+other.Name())
 	// (the driver checks the required classes separately for each build)
 	return r
@@ -844,10 +870,10 @@ func required() []string {
 var spec = &hx.Spec[Case]{
 	ID:    "C20",
 	Level: "exploration",
-	Rule: "cases = (chunk of 1 byte .. 1 MiB: zero/random/text/mixed; desync client that writes first; a second store directory holding <id>.cacnk in {absent, one-shot frame, streaming frame without content size, corrupt} written by the other zstd implementation and <id> in {absent, valid, corrupt}; client order, verify workers/repair, prune keep set); " +
+	Rule: "cases = (chunk of 1 byte .. 1 MiB: zero/random/text/mixed; desync client that writes first; for each of the two StoreChunk calls into the desync-written store the provenance of the chunk: NewChunk | NewChunkWithID | GetChunk from a source LocalStore | through desync.Cache | through desync.Copy | through RemoteHTTP from a chunk server | PUT to a chunk server over the destination, with source/wire format same as or opposite to the destination, SkipVerify of the source, Data() called before storing or not; a second store directory holding <id>.cacnk in {absent, one-shot frame, streaming frame without content size, corrupt} written by the other zstd implementation and <id> in {absent, valid, corrupt}; client order, verify workers/repair, prune keep set); " +
 		"the package runs once per build (desync=klauspost/other=libzstd and desync=libzstd/other=klauspost); " +
 		"non-trivial = a frame with at least one compressed-type block was decoded across implementations (other decodes desync's file, or desync reads the other's file), or the generated store held both formats of the ID; " +
-		"distinct by (build, length, fill, first writer, .cacnk state, raw state, corruption kind, client order, repair, keep)",
+		"distinct by (build, length, fill, first writer, .cacnk state, raw state, corruption kind, client order, repair, keep, provenance of both stored chunks)",
 	Assumptions: []string{
 		"chunk IDs computed with crypto/sha512 (Sum512_256) directly",
 		"'one standard zstd frame' is decided by an independent walker of the RFC 8878 framing (no decoding); its self-test accepts frames of both libraries and rejects concatenated, skippable and trailing bytes",
@@ -855,6 +881,8 @@ var spec = &hx.Spec[Case]{
 		"github.com/DataDog/zstd v1.5.2 (bundled libzstd 1.5.2) stands for the reference libzstd",
 		"coexistence is checked for LocalStore and desync.NewHTTPHandler on top of it; S3/SFTP stores belong to C16",
 		"what Verify prints or removes for a corrupt file of the client's own format is not judged here (C16)",
+		"source stores of the provenance dimension are written by hand (raw bytes, or one frame made by the other implementation or by desync.Compress), never by the StoreChunk under test; a Chunk's internal state is not observable (unexported fields): 'storage-only' is inferred from SkipVerify of the source and no Data()/ID() call before storing",
+		"the chunk server and its client of the http/put provenances are desync.NewHTTPHandler and desync.RemoteHTTP over a loopback httptest server (put with a body of the other implementation: request made in-process)",
 	},
 	Required: required(),
 	Gen:      genCase,
@@ -896,9 +924,38 @@ func TestEnum(t *testing.T) {
 			}
 		}
 	}
+	// every provenance of the stored chunk, into both destination formats in both orders
+	grid := provGrid()
+	plens := hx.Pick([]int{1, 4096}, []int{1, 255, 4096, blockSizeMax + 1, chunkMax})
+	pfills := hx.Pick([]string{"text", "rand"}, []string{"zero", "rand", "text", "mixed"})
+	kp := 0
+	for gi, p := range grid {
+		for li, l := range plens {
+			for _, mode := range []string{"compressed", "uncompressed"} {
+				k++
+				kp++
+				if k%hx.Shards() != hx.Shard() {
+					continue
+				}
+				// first writer: p into the format named by mode; second writer: for a fixed length
+				// q walks through the whole grid as well, into the other format
+				q := grid[(gi+li+1)%len(grid)]
+				c := Case{Size: "enum-prov", Fill: pfills[(gi+li)%len(pfills)], Len: l, Seed: uint64(l)*977 + uint64(k), Mode: mode,
+					Cacnk: []string{"oneshot", "stream"}[k%2], Raw: "valid", Corrupt: "otherdata",
+					First: []string{"compressed", "uncompressed"}[(k/2)%2], N: 1 + k%3, Repair: k%3 == 0, Keep: k%5 == 0,
+					Prov: [2]ProvSpec{p, q}}
+				if !hx.Case(t, spec, c) {
+					return
+				}
+			}
+		}
+	}
 	if hx.Shard() == 0 {
 		hx.AddNote("enum_cases", k)
+		hx.AddNote("enum_provenance_cases", kp)
+		hx.AddNote("provenance_grid", len(grid))
 	}
+	hx.Exhaustive("provenance grid of the stored chunk (kind x source/wire format x SkipVerify x touched) x destination format for the listed lengths")
 	hx.Exhaustive("store-state grid {.cacnk: absent/one-shot/stream/corrupt} x {raw: absent/valid/corrupt} x fill x first writer for the listed boundary lengths")
 }
 
